@@ -26,7 +26,10 @@ var hostile = []string{"", "plain", "\"><script>alert(1)</script>", "' onmouseov
 	"</form><form action=\"https://evil.example.org/\">", "a+b=c&d", "\\\"", "%22%3E", "javascript:alert(1)", "line\nbreak\rret\ttab", "𝄞 ünï", "`backtick`", "--><!--", "]]>", "</script>"}
 
 var hostileURLs = []string{"https://idp.example.com/sso", "https://idp.example.com/sso?a=1&b=2", "javascript:alert(1)", "JaVaScRiPt:alert(1)", " javascript:alert(1)", "data:text/html,<script>alert(1)</script>",
-	"vbscript:msgbox(1)", "https://x/\"><script>alert(1)</script>", "/relative/path", "//host/path", "mailto:a@b", "http://h/?q=\"'<>", "https://h/%zz%41", "ja\tvascript:alert(1)", "x:y/z", "a/b:c", "", "#frag", "https://h/ path with spaces", "HTTPS://UPPER/", "feed:javascript:x"}
+	"vbscript:msgbox(1)", "https://x/\"><script>alert(1)</script>", "/relative/path", "//host/path", "mailto:a@b", "http://h/?q=\"'<>", "https://h/%zz%41", "ja\tvascript:alert(1)", "x:y/z", "a/b:c", "", "#frag", "https://h/ path with spaces", "HTTPS://UPPER/", "feed:javascript:x",
+	// template delimiters inside an otherwise ordinary https location: data, never template source
+	"https://idp.example.com/sso?rs={{.RelayState}}&m={{.SAMLRequest}}", "https://idp.example.com/sso?tenant=a{{/* x */}}b", "https://idp.example.com/sso?x={{",
+	"https://idp.example.com/sso?x={{if .RelayState}}", "https://idp.example.com/sso?tenant={{print `evil.example.net`}}", "https://idp.example.com/sso?x=}}{{"}
 
 type formObs struct {
 	forms   int
@@ -211,7 +214,10 @@ func (c *Ctx) genC14() {
 		// SP AuthnRequest form (template 0 in service_provider.go)
 		{
 			r := &saml.AuthnRequest{ID: "id-1", Destination: dest, IssueInstant: now, Version: "2.0", AssertionConsumerServiceURL: pickU(i + 3)}
-			out := r.Post(relay)
+			var out []byte
+			if p := safely(func() string { out = r.Post(relay); return "ok" }); p != "ok" {
+				out = []byte("<!-- " + p + " -->") // (a panic while rendering: no form at all — the oracle says so)
+			}
 			v, _ := inputValOf(out, "SAMLRequest")
 			c.formCase("service_provider.go", 0, out, [][2]string{{"URL", dest}, {"SAMLRequest", v}, {"RelayState", relay}}, dest, 1, nil, "", "")
 		}
